@@ -9,6 +9,8 @@
 //   sp:K:FLAGS:keys:filters   PR_COMMAND_SETPARAMETERS; FLAGS over R (PR_NAME_REFLECT_TO_SELF) G (..GATEWAY_TO_NEIGHBORS) N (..NEIGHBORS_TO_GATEWAY),
 //                             keys -> PR_NAME_KEYS strings (default route), filters -> PR_NAME_FILTERS Messages ('-' = an empty Message)
 //   rp:K:NAMES                PR_COMMAND_REMOVEPARAMETERS of the literal names R G N K(eys) F(ilters)
+//   rw:K:PATTERN              PR_COMMAND_REMOVEPARAMETERS with one wildcard pattern over the parameter names (matched against every name in
+//                             _parameters; a unique pattern goes straight to RemoveParameter)
 //   m:K:WHAT:keys:filters:S   a Message with what code WHAT, int32 field "tag" = index of this op, optional PR_NAME_KEYS / PR_NAME_FILTERS,
 //                             session field S:  -  absent | I  an int32 field | S<v>&<v>  string values
 //   q:K:WHAT:keys:filters:S   the same, but queued on the client's gateway without pumping and without an output line (bursts; the
@@ -258,6 +260,22 @@ static void RunCase(long k, const std::string & line)
                case 'F': (void) m()->AddString(PR_NAME_KEYS, PR_NAME_FILTERS); me.hasFlts = false; me.filters.clear(); break;
                default: break;
             }
+         }
+         w.client(K).Send(m);
+      }
+      else if (code == "rw")
+      {
+         MessageRef m = MkMsg(PR_COMMAND_REMOVEPARAMETERS);
+         (void) m()->AddString(PR_NAME_KEYS, f[2].c_str());
+         ClientView & me = cv[K];
+         StringMatcher sm;
+         if (sm.SetPattern(f[2].c_str()).IsOK())
+         {
+            if ((sm.Match(PR_NAME_REFLECT_TO_SELF))&&(me.setR)) {me.reflect = false; me.setR = false;}
+            if ((sm.Match(PR_NAME_ROUTE_GATEWAY_TO_NEIGHBORS))&&(me.setG)) {me.gw2nb = false; me.setG = false;}
+            if ((sm.Match(PR_NAME_ROUTE_NEIGHBORS_TO_GATEWAY))&&(me.setN)) {me.nb2gw = false; me.setN = false;}
+            if (sm.Match(PR_NAME_KEYS))    {me.hasKeys = false; me.keys.clear();}
+            if (sm.Match(PR_NAME_FILTERS)) {me.hasFlts = false; me.filters.clear();}
          }
          w.client(K).Send(m);
       }
